@@ -8,7 +8,9 @@ from .models import Entry
 from . import steps as ST
 
 
-def package_info(repo='/repo'):
+def package_info(repo=None):
+    from . import runner as _R
+    repo = repo or _R.REPO
     txt = open(os.path.join(repo, 'Cargo.toml')).read()
     pkg = txt.split('[package]', 1)[1].split('\n[', 1)[0]
     name = re.search(r'^name\s*=\s*"([^"]+)"', pkg, re.M).group(1)
